@@ -200,7 +200,13 @@ def stream_dtypes(chk, rng, tier):
                     case.update(plain=base, got=got, error=err)
                     # float32 inputs are computed in single precision (eps 6e-8); everything else is exact in double
                     rt, at = (2e-5, 2e-6) if dt == 'float32' else (1e-12, 1e-14)
-                    ok = got is not None and all(close(g, w, rtol=rt, atol=at) for g, w in zip(got, base))
+                    cg, cb = got, base
+                    if got is not None and fn == 'number_needed_to_treat' and dt == 'float32':
+                        # single-precision rounding of RD -/+ z*se is amplified without bound by the reciprocal when a
+                        # limit of the risk difference is near 0: compare on the (documented) reciprocal = RD scale
+                        cg = [1 / v if v not in (0.0,) and math.isfinite(v) else v for v in got[:3]] + [got[3]]
+                        cb = [1 / v if v not in (0.0,) and math.isfinite(v) else v for v in base[:3]] + [base[3]]
+                    ok = got is not None and all(close(g, w, rtol=rt, atol=at) for g, w in zip(cg, cb))
                     chk.d(ok, 'count calculator: estimate, se and limits do not depend on the numeric container type '
                           '(numpy fixed-width scalar / 0-d array vs Python number)', case)
 
